@@ -28,6 +28,8 @@ class Facts:
         self.by_path = defaultdict(list)
         self.raw_bodies = {b["key"]: b for b in d["bodies"]}
         import os as _os
+        self._materialise_default_clear(d)
+        self.twin_aliases = self._alias_twins(d)
         if _os.environ.get("VERIF_NO_INLINE") == "1":
             body_dicts = d["bodies"]
         else:
@@ -42,6 +44,24 @@ class Facts:
             self.bodies[body.key] = body
             self.by_path[body.path].append(body)
         self.adts = {a["path"]: a for a in d["adts"]}
+        try:
+            import expr as _expr
+            _expr.AGG_FIELDS.clear()
+            for a in d["adts"]:
+                for v in a.get("variants", []):
+                    names = [f["name"] for f in v["fields"]]
+                    if names and not all(str(n).isdigit() for n in names):
+                        _expr.AGG_FIELDS[a["path"].split("::")[-1] + "::" + v["name"]] = names
+        except ImportError:
+            pass
+        try:
+            import model as _model
+            _model.UNIT_ADTS.clear()
+            for a in d["adts"]:
+                if a.get("kind") == "struct" and a.get("variants") and not a["variants"][0]["fields"] and "<" not in a["path"]:
+                    _model.UNIT_ADTS.add(a["path"])
+        except ImportError:
+            pass
         self.impls = d["impls"]
         self.impl_by_key = {i["key"]: i for i in d["impls"]}
         self.traits = {t["path"]: t for t in d["traits"]}
@@ -51,6 +71,122 @@ class Facts:
         for b in self.bodies.values():
             if b.kind == "Closure":
                 self.closures_of[b.owner.get("item_key")].append(b)
+
+    def _materialise_default_clear(self, d):
+        """A lifecycle method that a crate trait *provides* (`fn clear(&mut self) { self.truncate(0) }`)
+        and an impl does not override is that type's `clear` all the same: the rules about clear
+        look at the methods of each type, so the provided body is instantiated for every such impl
+        -- a copy with the `Self` calls resolved to the impl's own methods, owned by the impl -- and
+        analysed like a hand-written one.  (Only `clear`: the pinned tree's provided
+        merge_regions / reserve_regions are read through the trait body as before.)"""
+        try:
+            import inline as _inline
+        except ImportError:
+            return
+        provided = {}
+        for b in d["bodies"]:
+            it = (b.get("owner") or {}).get("in_trait")
+            if it and b["kind"] == "AssocFn" and b["name"] == "clear":
+                provided[it] = b
+        if not provided:
+            return
+        have = {((b.get("owner") or {}).get("impl_key"), b["name"]) for b in d["bodies"]}
+        for im in d["impls"]:
+            prov = provided.get(im.get("trait"))
+            st = im.get("self_ty") or {}
+            if prov is None or (im["key"], "clear") in have or not st.get("adt"):
+                continue
+            sp = dict(_inline.specialise_default(self, prov, {"self_ty": st}))
+            key = prov["key"] + "@" + st["adt"]
+            path = "<%s as %s>::clear" % (st.get("s"), im.get("trait_ref") or im.get("trait"))
+            sp["key"] = key
+            sp["path"] = path
+            sp["owner"] = {"item_key": key, "item_path": path, "impl_key": im["key"], "impl_self": st,
+                           "trait": im.get("trait"), "trait_ref": im.get("trait_ref"), "trait_args": im.get("trait_args")}
+            sp["materialised_from"] = prov["key"]
+            d["bodies"].append(sp)
+            self.raw_bodies[key] = sp
+
+    def _alias_twins(self, d):
+        """A method that does nothing but forward to a private method of the same type with extra
+        trailing arguments of zero-sized or generic type (`fn push(&mut self, x) {
+        self.push_traced(x, &mut NoTrace) }`, the twin carrying a pluggable hook) *is* that twin as
+        far as callers are concerned: a call of the twin from elsewhere in the crate
+        (`self.strided.push_traced(item, tracer)`) is read as a call of the method it implements,
+        with the extra arguments dropped.  The twin's body is then analysed once, inlined into its
+        forwarder.  Returns {twin key: forwarder key}."""
+        by_key = {b["key"]: b for b in d["bodies"]}
+        adts = {a["path"]: a for a in d["adts"]}
+
+        def hook_like(ty):
+            if ty.get("k") == "param":
+                return True
+            a = adts.get(ty.get("adt"))
+            return bool(a) and a.get("kind") == "struct" and bool(a.get("variants")) and not a["variants"][0]["fields"]
+        cand = {}
+        for b in d["bodies"]:
+            if b["kind"] not in ("Fn", "AssocFn") or "::tests::" in b["key"]:
+                continue
+            live = [blk for blk in b["blocks"] if not blk["cleanup"]]
+            if len(live) > 4 or any(blk["term"]["k"] in ("switch", "assert") for blk in live):
+                continue
+            calls = [blk["term"] for blk in live if blk["term"]["k"] == "call"]
+            if len(calls) != 1:
+                continue
+            t = calls[0]
+            ce = t.get("callee") or {}
+            k2 = (ce.get("resolved") or {}).get("key") or ce.get("key")
+            tgt = by_key.get(k2)
+            if not ce.get("local") or tgt is None or tgt is b or tgt.get("vis_pub") or tgt["kind"] != "AssocFn":
+                continue
+            n, m = b["arg_count"], tgt["arg_count"]
+            if not (m > n >= 1) or len(t["args"]) != m:
+                continue
+            if t["dest"]["l"] != 0 and (tgt["locals"][0]["ty"].get("s") != "()" or b["locals"][0]["ty"].get("s") != "()"):
+                continue
+            sa = ((b.get("owner") or {}).get("impl_self") or {}).get("adt")
+            if not sa or sa != ((tgt.get("owner") or {}).get("impl_self") or {}).get("adt"):
+                continue
+            if not all(hook_like(tgt["locals"][i]["ty"]) for i in range(n + 1, m + 1)):
+                continue
+            cand.setdefault(k2, []).append(b)
+        alias = {k2: bs[0] for k2, bs in cand.items() if len(bs) == 1}
+        if not alias:
+            return {}
+        # a callee record for each forwarder: an existing one if the crate calls it somewhere
+        recs = {}
+        for x in d["bodies"]:
+            for blk in x["blocks"]:
+                t = blk["term"]
+                if t["k"] == "call" and t.get("callee"):
+                    ce = t["callee"]
+                    k = (ce.get("resolved") or {}).get("key") or ce.get("key")
+                    recs.setdefault(k, ce)
+        for k2, fwd in alias.items():
+            rec = recs.get(fwd["key"])
+            if rec is None:
+                ow = fwd.get("owner") or {}
+                rec = {"path": fwd["path"], "pretty": fwd["path"], "key": fwd["key"], "local": True, "name": fwd["name"],
+                       "kind": fwd["kind"], "trait": ow.get("trait"), "self_ty": ow.get("impl_self"),
+                       "impl_self": ow.get("impl_self"), "impl_key": ow.get("impl_key"),
+                       "resolved": {"local": True, "key": fwd["key"]}}
+            for x in d["bodies"]:
+                if x is fwd or x["key"] == k2:
+                    continue
+                for blk in x["blocks"]:
+                    t = blk["term"]
+                    if t["k"] != "call" or not t.get("callee"):
+                        continue
+                    ce = t["callee"]
+                    if ((ce.get("resolved") or {}).get("key") or ce.get("key")) != k2:
+                        continue
+                    nce = dict(rec)
+                    if ce.get("self_ty") and not nce.get("self_ty"):
+                        nce["self_ty"] = ce["self_ty"]
+                    t["callee"] = nce
+                    t["args"] = t["args"][:fwd["arg_count"]]
+                    t["twin_of"] = k2
+        return {k2: fwd["key"] for k2, fwd in alias.items()}
 
     def body(self, key):
         return self.bodies.get(key)
@@ -475,7 +611,12 @@ class Origins:
         rest = path[1:]
         agg = rv["agg"]
         if step.startswith("v:"):
-            # downcast on an aggregate enum value: stay on the aggregate
+            # downcast on an aggregate enum value: stay on the aggregate -- unless the aggregate
+            # builds another variant (`(r as Ok).0` where r is, flow-insensitively, either of
+            # Ok(a) / Err(b): the Err construction does not reach a place that reads the Ok payload)
+            vn = rv.get("variant_name")
+            if agg == "adt" and vn is not None and step[2:] != str(vn) and rest:
+                return set()
             return self.extend(root, rest, _seen)
         idx = None
         if step.startswith("u:") and agg == "closure":
